@@ -1,5 +1,7 @@
 package redisemu
 
+import "math"
+
 func fnHGet(ctx *cmdContext, args map[string]any) (output respValue, err error) {
 	keyName := args["key"].(string)
 	fieldName := args["field"].(string)
@@ -194,11 +196,17 @@ func fnHRandField(ctx *cmdContext, args map[string]any) (output respValue, err e
 
 	if options != nil {
 		count, hasCount := options.mustGet("count").(int64)
+		_, withValues = options.get("withvalues")
 		if hasCount {
+			// as Redis: the negated count must be representable, and with
+			// WITHVALUES twice the count as well
+			if count == math.MinInt64 || (withValues && (count < -(math.MaxInt64/2) || count > math.MaxInt64/2)) {
+				output.data = respErrorString("ERR value is out of range")
+				return
+			}
 			c32 = int(count)
 			c = &c32
 		}
-		_, withValues = options.get("withvalues")
 	}
 	output = ctx.dsc.getHashTableRandField(keyName, c, withValues)
 	return
